@@ -20,11 +20,17 @@
        mode sizes, ranks, state dimension and diffusion shape.
      - C19_contraction_reversible: the same for the reversible contraction (_contraction_step_dPsi_u): component 1 + x of the
        carried vector is  sum over index tuples of (grad of the product)_x * core entries.
-   PARTIAL: the dense reduced-matrix identity (assembly of M from these vectors, V, S^-1 and the weights) is decided by
-   correspondence + side check (dense gEDMD); the HOSVD part is C18's. *)
+     - C19_reduced_is_BA: the matrix assembled by _reduced_matrix_tgedmd from these vectors, V, S^-1 and the weights is
+       B A with A = U S^-1, where A B is the dense projected generator: (Psi~^T)^+ (L Psi~)^T (non-reversible, B = V^T W^1/2
+       (L Psi)^T) resp. C_00^+ E with E = -1/2 sum_l w_l grad Psi a_l grad Psi^T (reversible, B = S^-1 U^T E);
+     - C19_spectrum: hence every eigenpair (lambda, w) of the reduced matrix gives the eigenpair (lambda, A w) of the dense
+       projected generator, and every eigenpair of the dense matrix gives one of the reduced matrix (with B v = 0 only if
+       lambda v = 0): equal non-zero spectra, with the same singular-value cut (U, S, V are the kept triplets).
+   PARTIAL: multiplicities and the eigen-solver are outside the proof (eig oracle; side check against dense gEDMD); the
+   HOSVD part is C18's. *)
 From Coq Require Import ZArith List Lia Arith.
 Import ListNotations.
-Require Import Ring Sums Matrix Core Chain Gedmd GedmdProof GedmdRevProof.
+Require Import Ring Sums Matrix Core Chain Gedmd GedmdProof GedmdRevProof GedmdReduced TedmdProof.
 Open Scope cr_scope.
 
 Theorem C19_frob_sigma (R : cring) (d d2 : nat) (sg : nat -> nat -> R) (gv gj : nat -> R) :
@@ -73,4 +79,29 @@ Definition exj (s : Z) : @fjet Zring := @mkjet Zring (s + 1)%Z (fun x => (Z.of_n
 Example ex_product_rule :
   snd (fst (tfold (fun z : Zring => Z.div z 2) 2 3 (fun x => Z.of_nat (x + 1) : Zring) (fun x k => (2 * Z.of_nat (x + k) - 2)%Z : Zring) [exj 1; exj 2; exj (-1)]))
   = gen_on_product (fun z : Zring => Z.div z 2) 2 3 (fun x => Z.of_nat (x + 1) : Zring) (fun x k => (2 * Z.of_nat (x + k) - 2)%Z : Zring) [exj 1; exj 2; exj (-1)].
+Proof. vm_compute. reflexivity. Qed.
+
+(* the reduced matrices are B A with A = U S^-1 *)
+Theorem C19_reduced_is_BA (R : cring) (N r m d : nat) (U : M R) (sinv : nat -> R) (V : M R) (sw : nat -> R) (LPsi : M R)
+        (w : nat -> R) (mhalf : R) (dPsi al : nat -> nat -> nat -> R) a b :
+  M_nr N m U sinv V sw LPsi a b = mmul N (B_nr m V sw LPsi) (Ared U sinv) a b /\
+  M_rev N m d U sinv w mhalf dPsi al a b = mmul N (B_rev N m d U sinv w mhalf dPsi al) (Ared U sinv) a b.
+Proof. exact (conj (reduced_nr_is_BA N m U sinv V sw LPsi a b) (reduced_rev_is_BA N m d U sinv w mhalf dPsi al a b)). Qed.
+Print Assumptions C19_reduced_is_BA.
+
+(* spectra of B A (reduced) and A B (dense projected generator) *)
+Theorem C19_spectrum (R : cring) (N k : nat) (A B : M R) (lam : R) :
+  (forall w, (forall i, (i < k)%nat -> sum k (fun j => mmul N B A i j * w j) = lam * w i) ->
+     forall x, sum N (fun y => mmul k A B x y * sum k (fun j => A y j * w j)) = lam * sum k (fun j => A x j * w j)) /\
+  (forall v, (forall x, (x < N)%nat -> sum N (fun y => mmul k A B x y * v y) = lam * v x) ->
+     (forall i, sum k (fun j => mmul N B A i j * sum N (fun y => B j y * v y)) = lam * sum N (fun y => B i y * v y)) /\
+     ((forall j, (j < k)%nat -> sum N (fun y => B j y * v y) = 0) -> forall x, (x < N)%nat -> lam * v x = 0)).
+Proof. exact (conj (fun w => eig_AB_BA N k A B w lam) (fun v => eig_back N k A B v lam)). Qed.
+Print Assumptions C19_spectrum.
+
+(* non-vacuity: a 2-function, 1-snapshot, rank-1 instance evaluates both sides of the non-reversible identity *)
+Definition exU19 : M Zring := fun idx _ => if Nat.eqb idx 0 then 1%Z else 2%Z.
+Definition exL19 : M Zring := fun idx _ => if Nat.eqb idx 0 then 11%Z else 13%Z.
+Example ex_reduced_nr :
+  @M_nr Zring 2 1 exU19 (fun _ => 3%Z) (fun _ _ => 5%Z) (fun _ => 7%Z) exL19 0%nat 0%nat = (7 * (5 * ((11 * 1 + 13 * 2) * 3)))%Z.
 Proof. vm_compute. reflexivity. Qed.
